@@ -52,33 +52,45 @@ impl<'a> PathBuilder<'a> {
 }
 
 fn match_path_segments(segments: &[&str], old_segments: &[PathSegment]) -> Option<HashSet<usize>> {
-    // This hurt my eyes
-
-    let mut optionals = HashSet::new();
-
-    let mut segments_iter = old_segments.iter().enumerate();
-    'outer: for seg in segments {
-        'inner: loop {
-            let (index, next_seg) = segments_iter.next()?;
-
-            match next_seg {
-                PathSegment::Unit => continue 'inner,
-                PathSegment::Param(_) => continue 'outer,
-                PathSegment::OptionalParam(to_match) if to_match == seg => {
-                    optionals.insert(index);
-                    continue 'outer;
-                }
-                PathSegment::OptionalParam(_) => continue 'inner,
-                PathSegment::Static(to_match) if to_match.is_empty() => continue 'inner,
-                PathSegment::Static(to_match) if to_match == seg => continue 'outer,
-                PathSegment::Static(_) => return None,
-                PathSegment::Splat(_) => return Some(optionals),
+    // `index` is the position of `old_segments[0]` in the route, needed to remember which optional params are present.
+    fn inner(
+        segments: &[&str],
+        old_segments: &[PathSegment],
+        index: usize,
+        optionals: &mut HashSet<usize>,
+    ) -> bool {
+        let Some((next_seg, old_rest)) = old_segments.split_first() else {
+            // if both are empty, perfect match !
+            return segments.is_empty();
+        };
+        match next_seg {
+            PathSegment::Unit => inner(segments, old_rest, index + 1, optionals),
+            PathSegment::Static(to_match) if to_match.is_empty() => {
+                inner(segments, old_rest, index + 1, optionals)
             }
+            PathSegment::Splat(_) => true,
+            PathSegment::OptionalParam(_) => {
+                // an optional param can take any value, or be absent.
+                let is_present = matches!(segments.split_first(), Some((_, rest)) if inner(rest, old_rest, index + 1, optionals));
+                if is_present {
+                    optionals.insert(index);
+                }
+                is_present || inner(segments, old_rest, index + 1, optionals)
+            }
+            PathSegment::Param(_) => match segments.split_first() {
+                Some((_, rest)) => inner(rest, old_rest, index + 1, optionals),
+                None => false,
+            },
+            PathSegment::Static(to_match) => match segments.split_first() {
+                Some((seg, rest)) if to_match == seg => inner(rest, old_rest, index + 1, optionals),
+                _ => false,
+            },
         }
     }
 
-    // if iter is empty, perfect match !
-    segments_iter.next().is_none().then_some(optionals)
+    let mut optionals = HashSet::new();
+
+    inner(segments, old_segments, 0, &mut optionals).then_some(optionals)
 }
 
 /// Strip the segments of `prefix` from the start of `path`, segments must match exactly (`/english` does not start with `en`).
